@@ -82,3 +82,28 @@ contract(
     properties=("C08",),
     note="the predicate TreeToODE.ode uses to reject a second, different definition of a name (kind clash, different right-hand side)",
 )
+
+# attrs equality of atoms (ASSUMED from the class definitions in atoms.py: every field takes part except Expression.tree,
+# which is declared cmp=False): a == b in the real code is this relation, not identity
+PYEQ = core.uf("Atom.__eq__", TAtom.sort(), TAtom.sort(), z3.BoolSort())
+
+
+def _atom_pyeq(a, b):
+    return SV(TBool, PYEQ(a.t, b.t))
+
+
+V.EQ_HOOK["Atom"] = _atom_pyeq
+
+
+def _pyeq_axioms(app):
+    a, b = app.children()
+    f = lambda name: registry.field_term("Atom", name, a).t == registry.field_term("Atom", name, b).t  # noqa: E731
+    deps = lambda x: core.uf("Value.dependencies", TValue.sort(), core.TSet(TName).sort())(registry.field_term("Atom", "value", x).t)  # noqa: E731
+    return [z3.Implies(a == b, app),
+            z3.Implies(app, z3.And(f("name"), f("components"), registry.tag_term("Atom", a) == registry.tag_term("Atom", b),
+                                   deps(a) == deps(b))),
+            # equal atoms need NOT have equal expression trees / values-as-written: no axiom in that direction
+            ]
+
+
+core.TERM_AXIOMS["Atom.__eq__"] = _pyeq_axioms
